@@ -157,8 +157,13 @@ def _run_case(case, ctx):
                 opts["normalize_factors"] = True
                 which = "normalize"
         else:
-            which = gen.choice(rs, ["fista", "fista", "active_set", "core-sparsity", "sparsity", "normalize"])
-            opts["algorithm"] = "active_set" if which == "active_set" else "fista"
+            which = gen.choice(rs, ["fista", "fista", "active_set", "active_set", "active_set-fullrank", "core-sparsity", "sparsity", "normalize"])
+            opts["algorithm"] = "active_set" if which.startswith("active_set") else "fista"
+            if which.startswith("active_set"):
+                # the outer budget is also the inner budget of the active-set core solver: tiny budgets leave it mid-way
+                n_iter = int(gen.choice(rs, [1, 1, 1, 2, 3]))
+                if which == "active_set-fullrank" and init_kind != "user":
+                    rank = [min(s_, 4) for s_ in shp]
             if which == "core-sparsity":
                 opts["core_sparsity_coefficient"] = float(gen.choice(rs, [0.01, 0.5]))
             if which == "sparsity":
